@@ -20,6 +20,9 @@ type composer struct {
 	mode     int // 0: read everything with typed readers / nested handlers; 1: random mix incl. skips and declines
 	skipped  bool
 	fastUsed bool
+	walk     bool // containers by a manual token walk (NextToken + typed readers) instead of the traversal functions
+	ws       bool // hand the readers the leading whitespace too (they skip it themselves)
+	ints     bool // integral numbers through the integer readers
 }
 
 var skippedMark = struct{ s string }{"skipped"}
@@ -45,6 +48,10 @@ func (c *composer) value(data []byte, depth int) (interface{}, int, error) {
 		pp, err := rjson.SkipValueFast(data[start:], c.buf)
 		return skippedMark, start + pp, err
 	}
+	if c.ws {
+		// the readers skip leading whitespace themselves: offsets are then relative to the unskipped slice
+		start = 0
+	}
 	switch tp {
 	case rjson.NullType:
 		pp, err := rjson.ReadNull(data[start:])
@@ -53,11 +60,25 @@ func (c *composer) value(data []byte, depth int) (interface{}, int, error) {
 		v, pp, err := rjson.ReadString(data[start:], nil)
 		return v, start + pp, err
 	case rjson.NumberType:
+		if c.ints && c.r.Intn(2) == 0 {
+			if u, pp, err := rjson.ReadUint64(data[start:]); err == nil {
+				return float64(u), start + pp, nil
+			}
+			if i, pp, err := rjson.ReadInt64(data[start:]); err == nil && i != 0 {
+				return float64(i), start + pp, nil
+			}
+		}
 		v, pp, err := rjson.ReadFloat64(data[start:])
 		return v, start + pp, err
 	case rjson.TrueType, rjson.FalseType:
 		v, pp, err := rjson.ReadBool(data[start:])
 		return v, start + pp, err
+	}
+	start = p - 1
+	if c.walk && depth <= 200 && (tp == rjson.ArrayStartType || tp == rjson.ObjectStartType) {
+		return c.walkContainer(data, p, tp == rjson.ObjectStartType, depth)
+	}
+	switch tp {
 	case rjson.ArrayStartType:
 		if choice == 3 || depth > 200 {
 			v, pp, err := rjson.ReadValue(data[start:])
@@ -106,6 +127,68 @@ func (c *composer) value(data []byte, depth int) (interface{}, int, error) {
 	return nil, p, fmt.Errorf("unexpected token")
 }
 
+// walkContainer reads an array or object whose opening bracket ends at pos, token by token: every step resumes at the offset
+// the previous call reported.
+func (c *composer) walkContainer(data []byte, pos int, isObj bool, depth int) (interface{}, int, error) {
+	closer := byte(']')
+	if isObj {
+		closer = '}'
+	}
+	var arr []interface{}
+	obj := map[string]interface{}{}
+	arr = []interface{}{}
+	first := true
+	for {
+		tk, q, err := rjson.NextToken(data[pos:])
+		if err != nil {
+			return nil, pos + q, err
+		}
+		if tk == closer && first {
+			pos += q
+			break
+		}
+		if !first {
+			if tk == closer {
+				pos += q
+				break
+			}
+			if tk != ',' {
+				return nil, pos + q, fmt.Errorf("lost sync: expected , or closer, found %q", tk)
+			}
+			pos += q
+		}
+		first = false
+		var key string
+		if isObj {
+			k, q, err := rjson.ReadString(data[pos:], nil)
+			if err != nil {
+				return nil, pos + q, err
+			}
+			key = k
+			pos += q
+			tk, q2, err := rjson.NextToken(data[pos:])
+			if err != nil || tk != ':' {
+				return nil, pos + q2, fmt.Errorf("lost sync: expected colon")
+			}
+			pos += q2
+		}
+		v, q2, err := c.value(data[pos:], depth+1)
+		if err != nil {
+			return nil, pos + q2, err
+		}
+		pos += q2
+		if isObj {
+			obj[key] = v
+		} else {
+			arr = append(arr, v)
+		}
+	}
+	if isObj {
+		return obj, pos, nil
+	}
+	return arr, pos, nil
+}
+
 func init() {
 	suites["C08"] = func(c *Ctx) (string, error) {
 		s := c.Suite
@@ -131,13 +214,20 @@ func init() {
 		for di, d := range pool {
 			d = exact(d)
 			direct, dp, derr := rjson.ReadValue(d)
-			for trial := 0; trial < 4; trial++ {
+			for trial := 0; trial < 6; trial++ {
 				cm := &composer{r: rand.New(rand.NewSource(c.Seed*1000003 + int64(di)*7 + int64(trial))), mode: 1}
-				if trial == 0 {
+				if trial == 0 || trial == 4 {
 					cm.mode = 0
 				}
 				if trial%2 == 1 {
 					cm.buf = &rjson.Buffer{}
+				}
+				if trial >= 4 {
+					// the manual token walk, readers given the whitespace, integers through the integer readers
+					cm.walk, cm.ws, cm.ints = true, true, true
+				}
+				if trial == 2 {
+					cm.ws, cm.ints = true, true
 				}
 				var tree interface{}
 				var p int
@@ -162,12 +252,12 @@ func init() {
 					} else if !cm.skipped && renderVal(tree) != renderVal(direct) {
 						s.Violation(line, cut(renderVal(tree)), cut(renderVal(direct)), "compose", "tree reconstructed through the API differs from direct decoding")
 					}
-				} else if cm.mode == 0 && err == nil {
+				} else if cm.mode == 0 && !cm.walk && err == nil {
 					s.Violation(line, fmt.Sprintf("ok offset %d", p), "error (direct decoding fails: "+derr.Error()+")", "compose", "all-reading validating decoder accepts an input on which direct decoding fails")
 				}
 			}
 		}
-		return "decoders written against the public API only (NextTokenType, typed readers, SkipValue, SkipValueFast, ReadValue, nested HandleArrayValues/HandleObjectValues with and without a shared Buffer, declining handlers), 1 all-reading + 3 random strategy mixes per document, on generated, followed, mutated and string-corner-case documents; final offset and reconstructed tree compared with direct ReadValue; the all-reading validating decoder must fail wherever direct decoding fails", nil
+		return "decoders written against the public API only (manual token walks with NextToken and the typed readers incl. the integer readers, readers given leading whitespace, NextTokenType, SkipValue, SkipValueFast, ReadValue, nested HandleArrayValues/HandleObjectValues with and without a shared Buffer, declining handlers), 2 all-reading + 4 random strategy mixes per document, on generated, followed, mutated and string-corner-case documents; final offset and reconstructed tree compared with direct ReadValue; the all-reading validating decoder must fail wherever direct decoding fails", nil
 	}
 }
 
